@@ -17,6 +17,7 @@ from ..schema import containment_schema
 from ..flags import check_flag_scope
 from ..normalize import unroll_const_loops, value_under, clone, inline, local_env, expand, canon, ctext, conjuncts, branch_values, merge_outcomes, Unknown, _enclosing
 from .. import flow
+from ..cfg import CFG
 from . import c12
 
 def _is_empty_collection(v):
@@ -213,11 +214,19 @@ def run(prog, rep):
             rep.violation('R2', loc(mod, id_loop), 'ABCARMPropertyGraph.generate_adms', f'id loop over {ast.unparse(id_loop.iter)}',
                           'one partition per delegation id')
         # skip conditions inside the node loop may only depend on the delegations of the node
+        node_var = ast.unparse(node_loop.target)
+        type_var = ast.unparse(type_loop.target)
+        not_catalogued = (f'{type_var} not in delegations_by_node[{node_var}]', f'delegations_by_node[{node_var}][{type_var}] is None')
+
+        def under_not_catalogued(stmt):
+            _, conds_ = _enclosing(stmt, node_loop)
+            return any(ctext(cj) in not_catalogued for c_ in conds_ for cj in conjuncts(canon(RN(expand(c_, genv)))))
         for n in ast.walk(node_loop):
             if isinstance(n, ast.If) and any(isinstance(x, ast.Continue) for x in n.body):
                 t = T(n.test)
                 rep.instance('R2', f'generate_adms: skip condition {norm(n.test, 100)}')
-                if 'delegations_by_node' not in t or 'keep_nodes' in t or 'remove_nodes' in t:
+                # a skip that sits under "nothing is catalogued for this type" narrows that skip and is the same kind of reason
+                if ('delegations_by_node' not in t and not under_not_catalogued(n)) or 'keep_nodes' in t or 'remove_nodes' in t:
                     rep.violation('R2', loc(mod, n), 'ABCARMPropertyGraph.generate_adms', norm(n.test, 120),
                                   'a node is skipped by the delegation rewrite for a reason other than "it carries no delegation '
                                   '(of this type)": nodes that are kept only because they are traced later (link peers, owning '
@@ -230,8 +239,14 @@ def run(prog, rep):
         vdef = None
         if isinstance(val, ast.Name):
             for n in ast.walk(node_loop):
-                if isinstance(n, ast.Assign) and any(isinstance(t, ast.Name) and t.id == val.id for t in n.targets) and \
-                        not (isinstance(n.value, ast.Constant) and n.value.value is None):
+                if isinstance(n, ast.Assign) and any(isinstance(t, ast.Name) and t.id == val.id for t in n.targets):
+                    if isinstance(n.value, ast.Constant) and n.value.value is None:
+                        # "no entries" may be written only where nothing is catalogued for this node and type
+                        if n is not node_loop and any(n is x for x in ast.walk(node_loop)) and not under_not_catalogued(n) and \
+                                any(isinstance(x, ast.stmt) and x is n for b in ast.walk(node_loop) for x in getattr(b, 'body', []) if isinstance(b, ast.If)):
+                            rep.violation('R2', loc(mod, n), 'ABCARMPropertyGraph.generate_adms', norm(n),
+                                          'the entries of a catalogued (node, type) pair are replaced by None')
+                        continue
                     vdef = n.value
         rep.instance('R2', f'generate_adms: rewrite value {norm(vdef) if vdef is not None else norm(val)}')
         node_var = ast.unparse(node_loop.target)
@@ -257,17 +272,58 @@ def run(prog, rep):
     unsets = [c for c in walk_no_nested(ud) if isinstance(c, ast.Call) and call_name(c) == 'unset_node_property']
     rep.instance('R5', f'_update_delegations_on_node: {len(unsets)} unset call(s); caller guarantees presence')
     if unsets:
-        # the caller must skip (node, type) pairs for which the original carries no delegation property
+        # the caller must skip (node, type) pairs for which the original carries no delegation property: every path to the
+        # rewrite call leaves a test through an edge that establishes "catalogued for this node and type" or "the raw
+        # property is present on this node"
         ok = False
         if len(loops) >= 2:
             tv = ast.unparse(loops[0].target)
             nv = ast.unparse(loops[1].target)
-            _, conds = _enclosing(cs, loops[1])
-            for c_ in conds:
-                for cj in conjuncts(canon(RN(expand(c_, genv)))):
-                    # "the node carries a delegation property of this type": <type> in delegations_by_node[<node>]
-                    if ctext(cj) in (f'{tv} in delegations_by_node[{nv}]', f'delegations_by_node[{nv}][{tv}] is not None'):
-                        ok = True
+            # locals holding the raw properties of the current node
+            raw = set()
+            for n in ast.walk(loops[1]):
+                if isinstance(n, ast.Assign) and isinstance(n.value, ast.Call) and call_name(n.value) == 'get_node_properties' and \
+                        T(kwarg(n.value, 'node_id') or (n.value.args[0] if n.value.args else None)) == nv:
+                    for t_ in n.targets:
+                        raw |= {e.id for e in (t_.elts[1:] if isinstance(t_, ast.Tuple) else [t_]) if isinstance(e, ast.Name)}
+            pname = kwarg(cs, 'prop_name')
+            ptxts = {ctext(pname), T(pname)} if pname is not None else set()
+            pos = {f'{tv} in delegations_by_node[{nv}]', f'delegations_by_node[{nv}][{tv}] is not None'}
+            neg = {f'{tv} not in delegations_by_node[{nv}]', f'delegations_by_node[{nv}][{tv}] is None'}
+
+            def establishes(e):
+                """'t' / 'f' / None: the edge of test `e` on which the property is known to be on the node"""
+                c_ = canon(RN(expand(e, genv)))
+                cjs = [ctext(x) for x in conjuncts(c_)]
+                if any(x in pos for x in cjs):
+                    return 't'
+                if len(cjs) == 1 and cjs[0] in neg:
+                    return 'f'
+                if isinstance(e, ast.Compare) and len(e.ops) == 1 and isinstance(e.comparators[0], ast.Name) and e.comparators[0].id in raw and \
+                        (ctext(e.left) in ptxts or T(e.left) in ptxts):
+                    return 't' if isinstance(e.ops[0], ast.In) else 'f' if isinstance(e.ops[0], ast.NotIn) else None
+                return None
+            gcfg = CFG(ga)
+            cnodes = [x for x in gcfg.nodes if x.ast is not None and x.kind == 'stmt' and any(y is cs for y in ast.walk(x.ast))]
+            cut = {}
+            for t_ in gcfg.nodes:
+                if t_.kind == 'test' and t_.ast is not None and any(t_.ast is x or getattr(x, 'test', None) is t_.ast for x in ast.walk(loops[1])):
+                    ek = establishes(t_.ast)
+                    if ek:
+                        cut[t_.id] = ek
+                        rep.instance('R5', f'generate_adms: presence established on the {ek!r} edge of `{norm(t_.ast, 90)}`')
+            if cnodes and cut:
+                seen = {gcfg.entry.id}
+                stack = [gcfg.entry]
+                while stack:
+                    n_ = stack.pop()
+                    for s_, ek in n_.succ:
+                        if cut.get(n_.id) == ek:
+                            continue
+                        if s_.id not in seen:
+                            seen.add(s_.id)
+                            stack.append(s_)
+                ok = cnodes[0].id not in seen and cnodes[0].id in gcfg.reachable()
         if not ok:
             rep.violation('R5', loc(mod, cs), 'ABCARMPropertyGraph.generate_adms', 'unset reachable for an absent property',
                           'unset_node_property raises on the NetworkX backend when the property is absent; the rewrite reaches it '
@@ -569,8 +625,14 @@ MUTANTS = [
      'find': "                                                                  rel2=ABCPropertyGraph.REL_HAS,\n                                                                  node2_label=ABCPropertyGraph.CLASS_Component)",
      'replace': "                                                                  rel2=ABCPropertyGraph.REL_HAS,\n                                                                  node2_label=ABCPropertyGraph.CLASS_NetworkNode)"},
     {'name': 'presence-guard-dropped', 'file': AF, 'rule': 'R5',
-     'find': "                    if delegations_by_node[node].get(atype, None) is None:\n                        # no delegation property of this type on the node, nothing to rewrite or unset\n                        continue\n                    ds = delegations_by_node[node][atype].return_delegations_for_id(del_id)",
-     'replace': "                    ds = None\n                    if delegations_by_node[node].get(atype, None) is not None:\n                        ds = delegations_by_node[node][atype].return_delegations_for_id(del_id)"},
+     'find': "                        if prop_field_name not in node_props:\n                            continue\n                        ds = None",
+     'replace': "                        ds = None"},
+    {'name': 'uncatalogued-pair-skipped-on-unrelated-test', 'file': AF, 'rule': 'R5',
+     'find': "                        if prop_field_name not in node_props:\n                            continue\n                        ds = None",
+     'replace': "                        if del_id not in node_props:\n                            continue\n                        ds = None"},
+    {'name': 'catalogued-entries-replaced-by-none', 'file': AF, 'rule': 'R2',
+     'find': "                    else:\n                        ds = delegations_by_node[node][atype].return_delegations_for_id(del_id)",
+     'replace': "                    else:\n                        ds = delegations_by_node[node][atype].return_delegations_for_id(del_id)\n                        if not ds:\n                            ds = None"},
     {'name': 'rekey-rebuilds-entry-under-old-key', 'file': 'fim/graph/resources/abc_adm.py', 'rule': 'R6',
      'find': '                    delegations.delegations[delegation.delegation_id] = delegations.delegations.pop(del_id)', 'replace': '                    delegations.delegations[del_id] = delegation'},
 ]
